@@ -413,6 +413,75 @@ def flat_subscript(e: ast.AST, env: Optional[Dict[str, ast.AST]] = None, depth: 
     return None
 
 
+def source_order(fnode: ast.AST) -> Dict[int, int]:
+    """id(node) -> position in a depth-first, field-order traversal of the function: the order in which the code reads.  (Line numbers are not
+    usable: statements inlined from a helper keep the helper's line numbers.)"""
+    cache = getattr(fnode, "_pg_order", None)
+    if cache is not None:
+        return cache
+    order: Dict[int, int] = {}
+
+    def rec(n):
+        order[id(n)] = len(order)
+        for ch in ast.iter_child_nodes(n):
+            rec(ch)
+    rec(fnode)
+    try:
+        fnode._pg_order = order
+    except Exception:
+        pass
+    return order
+
+
+def bool_equiv(e1: ast.AST, e2: ast.AST, max_atoms: int = 6) -> Optional[bool]:
+    """are two boolean expressions the same function of their atoms?  Atoms are comparisons / other sub-expressions, compared by text after
+    `a is not b` -> not (a is b), `a not in b` -> not (a in b), `a != b` -> not (a == b); connectives: not / and / or / conditional expression /
+    True / False.  Decided by the truth table (None when there are too many atoms).  Purely propositional: it knows nothing about the atoms."""
+    atoms: List[str] = []
+
+    def build(e):
+        if isinstance(e, ast.Constant) and isinstance(e.value, bool):
+            return ("const", e.value)
+        if isinstance(e, ast.UnaryOp) and isinstance(e.op, ast.Not):
+            return ("not", build(e.operand))
+        if isinstance(e, ast.BoolOp):
+            return ("and" if isinstance(e.op, ast.And) else "or", [build(v) for v in e.values])
+        if isinstance(e, ast.IfExp):
+            return ("ite", build(e.test), build(e.body), build(e.orelse))
+        if isinstance(e, ast.Compare) and len(e.ops) == 1 and isinstance(e.ops[0], (ast.IsNot, ast.NotIn, ast.NotEq)):
+            pos = {ast.IsNot: ast.Is, ast.NotIn: ast.In, ast.NotEq: ast.Eq}[type(e.ops[0])]
+            return ("not", build(ast.Compare(left=e.left, ops=[pos()], comparators=e.comparators)))
+        t = norm(e)
+        if isinstance(e, ast.Compare) and len(e.ops) == 1 and isinstance(e.ops[0], ast.Eq):
+            t = " == ".join(sorted([norm(e.left), norm(e.comparators[0])]))
+        if t not in atoms:
+            atoms.append(t)
+        return ("atom", t)
+
+    def ev(n, val):
+        k = n[0]
+        if k == "const":
+            return n[1]
+        if k == "atom":
+            return val[n[1]]
+        if k == "not":
+            return not ev(n[1], val)
+        if k == "and":
+            return all(ev(x, val) for x in n[1])
+        if k == "or":
+            return any(ev(x, val) for x in n[1])
+        return ev(n[2], val) if ev(n[1], val) else ev(n[3], val)
+    t1, t2 = build(e1), build(e2)
+    if len(atoms) > max_atoms:
+        return None
+    import itertools
+    for bits in itertools.product((False, True), repeat=len(atoms)):
+        val = dict(zip(atoms, bits))
+        if ev(t1, val) != ev(t2, val):
+            return False
+    return True
+
+
 def stores_to(fnode: ast.AST, name: str) -> List[ast.AST]:
     """statements that (re)bind local `name` in any way (assign, augassign, for target, with, comprehension excluded)"""
     out = []
